@@ -5,11 +5,14 @@
 //!     romberg <poly> <a> <b> <cap> <tol>   → ok f… | err MaxIterationsReached | err FunctionError <Kind> | panic
 //!
 //! The numeric oracle (exact rationals) lives in tools/props/c05.py; here only "never a panic".
+//! `hardening_families` adds the inputs an absolute guard / a truncated counter / a name-bound shortcut needs
+//! (narrow and tiny intervals, coefficient scales 2^-100..2^60, n up to 2^20, caps around 2^8..2^32, odd tolerances,
+//! every representation of the polynomial).
 use crate::polyio::*;
 use crate::util::*;
 use spindalis::integrals::{IntegralError, definite_integral, romberg_definite};
 use spindalis_core::polynomials::Term;
-use spindalis_core::polynomials::structs::IntermediatePolynomial;
+use spindalis_core::polynomials::structs::{IntermediatePolynomial, SimplePolynomial};
 
 fn show(r: Option<Result<f64, IntegralError>>) -> Obs {
     match r {
@@ -218,6 +221,217 @@ pub fn generate(seed: u64, thorough: bool, emit: &mut dyn FnMut(String)) {
     for p in bad_polys().iter() {
         for cap in [0u64, 3, 20] {
             emit(romberg(p, 0.0, 1.0, cap, 1e-6));
+        }
+    }
+    hardening_families(seed, thorough, emit);
+}
+
+/// the same polynomial in every representation the integrators accept: dense / sparse, variables other than x,
+/// no variable at all, zero coefficients kept or dropped
+fn repr_any(rng: &mut Rng, cs: &[f64], which: u64) -> AnyPoly {
+    match which % 5 {
+        0 => simple_of(cs),
+        1 => inter_of(cs, rng.chance(1, 5)),
+        2 => AnyPoly::S(SimplePolynomial { coefficients: cs.to_vec(), variable: *rng.pick(&[Some('y'), Some('t'), Some('X'), None, Some('λ')]) }),
+        _ => {
+            let name = *rng.pick(&["y", "t", "X", "q", "Z"]);
+            let keep = rng.chance(1, 4);
+            let mut terms = Vec::new();
+            for (k, c) in cs.iter().enumerate() {
+                if *c == 0.0 && !keep {
+                    continue;
+                }
+                let variables = if k == 0 { vec![] } else { vec![(name.to_string(), k as f64)] };
+                terms.push(Term { coefficient: *c, variables });
+            }
+            let has_var = terms.iter().any(|t| !t.variables.is_empty());
+            AnyPoly::I(IntermediatePolynomial { terms, variables: if has_var { vec![name.to_string()] } else { vec![] } })
+        }
+    }
+}
+
+/// coefficients of exactly the given degree, all multiplied by 2^shift
+fn coeffs_scaled(rng: &mut Rng, deg: usize, shift: i32) -> Vec<f64> {
+    coeffs(rng, deg).into_iter().map(|c| c * 2f64.powi(shift)).collect()
+}
+
+/// a narrow interval away from 0: a = m 2^e, b = a (1 + 2^-k), either order, either sign
+fn narrow(rng: &mut Rng) -> (f64, f64) {
+    let a = rng.range(1, 15) as f64 / 4.0 * 2f64.powi(rng.range(-20, 10) as i32);
+    let b = a * (1.0 + 2f64.powi(-(rng.range(8, 46) as i32)));
+    let s = if rng.chance(1, 3) { -1.0 } else { 1.0 };
+    if rng.chance(1, 4) { (b * s, a * s) } else { (a * s, b * s) }
+}
+
+/// binary exponent of a coefficient scale: a third each of 2^-100..2^-60, 2^-60..1, 1..2^60 (an absolute guard at any
+/// threshold down to 1e-30 has a fair chance of being crossed)
+fn pick_shift(rng: &mut Rng) -> i32 {
+    match rng.below(3) {
+        0 => rng.range(-100, -60) as i32,
+        1 => rng.range(-60, 0) as i32,
+        _ => rng.range(0, 60) as i32,
+    }
+}
+
+fn deg_class(rng: &mut Rng, r: usize) -> usize {
+    if r % 2 == 0 { rng.below(4) as usize } else { 4 + rng.below(5) as usize }
+}
+
+pub fn hardening_families(seed: u64, thorough: bool, emit: &mut dyn FnMut(String)) {
+    let mut rng = Rng::new(Rng::new(seed ^ 0xC05_0002).next());
+    let mul = if thorough { 12 } else { 1 };
+    let simpson = |p: &AnyPoly, a: f64, b: f64, n: usize| format!("simpson {} {} {} {n}", req_any(p), rbits(a), rbits(b));
+    let romberg = |p: &AnyPoly, a: f64, b: f64, cap: u64, tol: f64| {
+        format!("romberg {} {} {} {cap} {}", req_any(p), rbits(a), rbits(b), rbits(tol))
+    };
+    let ns: [usize; 16] = [1, 2, 3, 4, 5, 6, 7, 8, 9, 10, 11, 16, 33, 64, 199, 200];
+
+    // ---- narrow intervals away from 0 (the integral is tiny in absolute terms, the abscissae are not)
+    for r in 0..400 * mul {
+        let deg = deg_class(&mut rng, r);
+        let cs = coeffs(&mut rng, deg);
+        let (a, b) = narrow(&mut rng);
+        let n = if r % 3 == 0 { 1 + rng.below(200) as usize } else { *rng.pick(&ns) };
+        let w = rng.below(5);
+        emit(simpson(&repr_any(&mut rng, &cs, w), a, b, n));
+    }
+    for r in 0..150 * mul {
+        let deg = if r % 3 == 2 { rng.below(9) as usize } else { rng.below(4) as usize };
+        let cs = coeffs(&mut rng, deg);
+        let (a, b) = narrow(&mut rng);
+        let w = rng.below(5);
+        let (cap, tol) = (2 + rng.below(10), *rng.pick(&TOLS));
+        emit(romberg(&repr_any(&mut rng, &cs, w), a, b, cap, tol));
+    }
+    // ---- tiny intervals at 0 and next to it, both orders (absolute guards on the width)
+    for r in 0..200 * mul {
+        let deg = deg_class(&mut rng, r);
+        let cs = coeffs(&mut rng, deg);
+        let w0 = rng.range(1, 7) as f64 * 2f64.powi(-(rng.range(30, 90) as i32));
+        let a0 = match rng.below(4) {
+            0 => 0.0,
+            1 => -0.0,
+            2 => -w0 / 2.0,
+            _ => rng.range(-8, 8) as f64 * 2f64.powi(-(rng.range(20, 60) as i32)),
+        };
+        let (a, b) = if rng.chance(1, 3) { (a0 + w0, a0) } else { (a0, a0 + w0) };
+        let w = rng.below(5);
+        if r % 4 == 3 {
+            let (cap, tol) = (2 + rng.below(10), *rng.pick(&TOLS));
+            emit(romberg(&repr_any(&mut rng, &cs, w), a, b, cap, tol));
+        } else {
+            let n = *rng.pick(&ns);
+            emit(simpson(&repr_any(&mut rng, &cs, w), a, b, n));
+        }
+    }
+    // ---- coefficients of every magnitude 2^-70..2^60 (a guard on |f| or on the sum in absolute units)
+    for r in 0..300 * mul {
+        let deg = deg_class(&mut rng, r);
+        let shift = pick_shift(&mut rng);
+        let cs = coeffs_scaled(&mut rng, deg, shift);
+        let kind = rng.below(6);
+        let (a, b) = interval(&mut rng, kind);
+        let w = rng.below(5);
+        if r % 4 == 3 {
+            // generous tolerances: a value comes back after one or two passes
+            let (cap, tol) = (2 + rng.below(10), *rng.pick(&[10.0, 100.0, f64::INFINITY, 1.0, 1e-6, 1e300]));
+            emit(romberg(&repr_any(&mut rng, &cs, w), a, b, cap, tol));
+        } else {
+            let n = *rng.pick(&ns);
+            emit(simpson(&repr_any(&mut rng, &cs, w), a, b, n));
+        }
+    }
+    // ---- segment counts beyond 200: every count to 260, the powers of two and their neighbours
+    let mut big: Vec<usize> = (201..=260).collect();
+    big.extend_from_slice(&[511, 512, 513, 1000, 1023, 1024, 1025, 4095, 4096, 4097, 65535, 65536, 65537]);
+    // n / 2 and n / 3 beyond 2^16 as well
+    big.extend_from_slice(&[131071, 131072, 131073, 131074, 196608, 196611, 262144, 262147, 1 << 20]);
+    if thorough {
+        big.extend_from_slice(&[1_000_000, 1_000_001]);
+    }
+    for &n in &big {
+        for r in 0..2 {
+            let deg = deg_class(&mut rng, r);
+            let cs = coeffs(&mut rng, deg);
+            let kind = *rng.pick(&[0u64, 1, 3, 4]);
+            let (a, b) = interval(&mut rng, kind);
+            let w = rng.below(5);
+            emit(simpson(&repr_any(&mut rng, &cs, w), a, b, n));
+        }
+    }
+    // ---- degrees 9..12
+    for deg in 9..=12usize {
+        for &n in &ns {
+            let cs = coeffs(&mut rng, deg);
+            let kind = *rng.pick(&[0u64, 1, 3, 4, 5]);
+            let (a, b) = interval(&mut rng, kind);
+            let w = rng.below(5);
+            emit(simpson(&repr_any(&mut rng, &cs, w), a, b, n));
+        }
+        let cs = coeffs(&mut rng, deg);
+        emit(romberg(&simple_of(&cs), -1.0, 2.0, 20, 1e-9));
+    }
+    // ---- the zero polynomial in every shape; signed-zero bounds
+    let zero_polys: Vec<AnyPoly> = vec![
+        AnyPoly::S(SimplePolynomial { coefficients: vec![], variable: Some('x') }),
+        AnyPoly::S(SimplePolynomial { coefficients: vec![], variable: None }),
+        AnyPoly::S(SimplePolynomial { coefficients: vec![0.0], variable: Some('x') }),
+        AnyPoly::S(SimplePolynomial { coefficients: vec![0.0, -0.0, 0.0, 0.0, 0.0], variable: Some('x') }),
+        AnyPoly::I(IntermediatePolynomial { terms: vec![], variables: vec![] }),
+        AnyPoly::I(IntermediatePolynomial { terms: vec![], variables: vec!["x".to_string()] }),
+        AnyPoly::I(IntermediatePolynomial { terms: vec![Term { coefficient: 0.0, variables: vec![("x".to_string(), 3.0)] }], variables: vec!["x".to_string()] }),
+    ];
+    for p in &zero_polys {
+        for n in [1usize, 2, 3, 4, 5, 8] {
+            emit(simpson(p, -1.5, 2.0, n));
+        }
+        for cap in [0u64, 1, 2, 3, 9] {
+            emit(romberg(p, -1.5, 2.0, cap, 1e-6));
+            emit(romberg(p, -1.5, 2.0, cap, 0.0));
+        }
+    }
+    for (a, b) in [(-0.0, 0.0), (0.0, -0.0), (-0.0, 1.0), (1.0, -0.0), (-0.0, -0.0)] {
+        let cs = coeffs(&mut rng, 3);
+        for n in [1usize, 2, 3, 5, 6] {
+            emit(simpson(&simple_of(&cs), a, b, n));
+        }
+        emit(romberg(&inter_of(&cs, false), a, b, 6, 1e-6));
+    }
+    // ---- iteration caps around 2^8, 2^16, 2^31, 2^32 and tolerances outside the usual list
+    for cap in [7u64, 8, 9, 10, 255, 256, 257, 65535, 65537, 2147483647, 2147483648, 2147483649, 4294967294] {
+        for tol in [-1.0, 0.0, 1e-9, 1.0] {
+            let deg = rng.below(7) as usize;
+            let cs = coeffs(&mut rng, deg);
+            let kind = *rng.pick(&[0u64, 1, 3, 4]);
+            let (a, b) = interval(&mut rng, kind);
+            let w = rng.below(5);
+            emit(romberg(&repr_any(&mut rng, &cs, w), a, b, cap, tol));
+        }
+    }
+    for tol in [f64::NAN, f64::INFINITY, f64::NEG_INFINITY, 5e-324, f64::EPSILON, 100.0, 1e300, -0.0] {
+        for cap in [0u64, 1, 2, 3, 5, 8, 9, 30] {
+            let deg = rng.below(7) as usize;
+            let shift = if rng.chance(1, 2) { 0 } else { pick_shift(&mut rng) };
+            let cs = coeffs_scaled(&mut rng, deg, shift);
+            let kind = *rng.pick(&[0u64, 1, 2, 3, 4]);
+            let (a, b) = interval(&mut rng, kind);
+            let w = rng.below(5);
+            emit(romberg(&repr_any(&mut rng, &cs, w), a, b, cap, tol));
+        }
+    }
+    // ---- other representations on the ordinary families
+    for r in 0..300 * mul {
+        let deg = deg_class(&mut rng, r);
+        let cs = coeffs(&mut rng, deg);
+        let kind = rng.below(6);
+        let (a, b) = interval(&mut rng, kind);
+        let w = 2 + rng.below(3);
+        if r % 3 == 2 {
+            let (cap, tol) = (rng.below(12), *rng.pick(&TOLS));
+            emit(romberg(&repr_any(&mut rng, &cs, w), a, b, cap, tol));
+        } else {
+            let n = 1 + rng.below(200) as usize;
+            emit(simpson(&repr_any(&mut rng, &cs, w), a, b, n));
         }
     }
 }
